@@ -350,6 +350,13 @@ class MaskSplitter(DirectModule):
             else:
                 input_mask = mask * (xv - yv <= 0)
                 target_mask = mask * (xv - yv > 0)
+        if not self.keep_acs:
+            # The ACS region belongs to the input mask only.
+            acs_rows = slice(center_x - self.acs_region[0] // 2, center_x + self.acs_region[0] // 2)
+            acs_cols = slice(center_y - self.acs_region[1] // 2, center_y + self.acs_region[1] // 2)
+            input_mask[acs_rows, acs_cols] = mask[acs_rows, acs_cols]
+            target_mask[acs_rows, acs_cols] = False
+
         if self.keep_acs:
             input_mask, target_mask = input_mask | acs_mask, target_mask | acs_mask
 
